@@ -369,11 +369,65 @@ func runC07(c *Ctx) {
 			}
 		}
 		c.check(n >= 8, "R4", "panic-capable sites on request data", "?", fmt.Sprintf("%d sites examined", n), fmt.Sprintf("only %d sites found", n))
+		// the in-package backend behind InMemHandler() receives offsets and sizes straight from the wire
+		// (uint64 converted to int64, so also negative): its slicing and growing must not panic for any of them
+		nb := 0
+		for _, name := range []string{"(*memFile).ReadAt", "(*memFile).WriteAt", "(*memFile).Truncate", "(*memFile).grow"} {
+			fn := p.Func(name)
+			if fn == nil {
+				c.missing("R4", name)
+				continue
+			}
+			z := w.get(fn)
+			for _, o := range z.obligationsOf() {
+				if o.Kind != "slice" && o.Kind != "index" && o.Kind != "make" && o.Kind != "alloc" {
+					continue
+				}
+				// decided here: the sanity of the wire values themselves (sign, absolute bound).  Goals that relate
+				// them to the file's current length after a call that grows it are beyond the field memory of the
+				// prover (a method call invalidates the receiver's cells) and are left to the backend's own logic.
+				if o.Kind == "slice" || o.Kind == "index" {
+					var goals []lin
+					for _, g := range o.Goals {
+						onlyParams := true
+						for k := range g.coef {
+							if !strings.HasPrefix(k, "p:") {
+								onlyParams = false
+							}
+						}
+						if onlyParams {
+							goals = append(goals, g)
+						}
+					}
+					if len(goals) == 0 {
+						continue
+					}
+					o.Goals = goals
+					o.Desc = "offset/size from the wire is not negative"
+				}
+				if o.Kind == "alloc" {
+					// not a question of proportion here (a sparse write legitimately grows the file): the size must
+					// be bounded by some constant that make() accepts on every platform, or a large offset panics
+					if ms, ok := o.In.(*ssa.MakeSlice); ok {
+						up := z.term(ms.Len)
+						up.c -= 1 << 31
+						o.Alt = nil
+						o.Goals = []lin{up}
+						o.Desc = "growth bounded by a constant (at most 2 GiB)"
+					}
+				}
+				nb++
+				decideObl(c, w, z, o, "R4", oblKey(o, fn, ord), lifted)
+			}
+		}
+		c.check(nb >= 3, "R4", "in-memory backend sites", "?", fmt.Sprintf("%d sites", nb), fmt.Sprintf("only %d sites found in the in-memory backend", nb))
 		// allocator page invariant: everything stored in the page lists is a maxMsgLength page or came from them
 		checkPageInvariant(c, "R4")
 	}
 	checkJoinUnderLock(c, "R5")
 	checkAttrsValidatedAtDecode(c, "R6")
+	// R7: a handler blocked on its request context must be released before Serve joins the workers (shared with C11.R11)
+	checkContextCancelledBeforeJoin(c, "R7")
 }
 
 // checkJoinUnderLock: a function that waits for goroutines (WaitGroup.Wait) must not hold a mutex that the
